@@ -798,6 +798,8 @@ func isNestedOf(outer, n *h.Step) bool {
 
 var i0 = u.F("i0", "", "") // an invoked function without parameters
 
+var rBA = u.F("rBA", "A", "B") // B needs A
+
 func c05HistoryUnits(tier string) []Unit {
 	q := quick(tier)
 	var units []Unit
@@ -817,6 +819,13 @@ func c05HistoryUnits(tier string) []Unit {
 		if !def || !q { // quick: eager verification only (that is where the Provide must be rejected)
 			units = append(units, Unit{Sc: &Scenario{Name: fmt.Sprintf("histories/shadowed-ring/defer=%v", def), Cfg: h.Config{Defer: def}, Prefix: prefixChild,
 				Alphabet: sh.ops(), Depth: 6, Budget: explore.Budget{Provides: 5, Invokes: 1, Rejected: 1}, Allowed: onceEach, Monitors: []explore.Monitor{c05Monitor}}})
+		}
+		// 1c. a two-ring closed across scopes, with accepted and rejected
+		// Decorate calls (single key; group, which adds graph nodes) in between
+		if !def || !q {
+			dr := alpha{scopes: []int{0, 1}, ctors: []*uFunc{rAB, rBA, pDd}, export: true, decos: []*uFunc{dA, dA0, dG, dGns}, invokes: []*uFunc{iA}}
+			units = append(units, Unit{Sc: &Scenario{Name: fmt.Sprintf("histories/rejected-decorate-between/defer=%v", def), Cfg: h.Config{Defer: def}, Prefix: prefixChild,
+				Alphabet: dr.ops(), Depth: 6, Budget: explore.Budget{Provides: 3, Decorates: 2, Invokes: 1, Rejected: 2}, Allowed: onceEach, Monitors: []explore.Monitor{c05Monitor}}})
 		}
 		// 2. the same pieces registered from inside a running Invoke
 		var ops []Op
